@@ -154,14 +154,14 @@ theorem child_odd {pos : Pos} (h : ¬ pos.2 % 2 = 0) :
 /-- **the loop of `updateHashes` below a root**: the strict ancestors of `pos` up to the root get
 their hashes in `N''`, stored-ness is unchanged, nothing else changes -/
 theorem updLoop_below (L : Laws N'' R) (n T : Nat) (hR : ∀ z, R z ↔ isRootPos n z = true)
-    (hRT : ∀ ρ, R ρ → ρ.1 ≤ T) :
+    (hRT : ∀ ρ, R ρ → ρ.1 ≤ T) {fl : Bool} :
     ∀ (k : Nat) (pos : Pos) (node : Leaf H) (A : Pos → Option (Leaf H)) (ρ : Pos), R ρ → Anc ρ pos → pos ≠ ρ →
-      k + pos.1 = T + 1 → (∃ f, (pos, node.hash, f) ∈ N'') → node.remember = false →
+      k + pos.1 = T + 1 → (∃ f, (pos, node.hash, f) ∈ N'') → node.remember = fl →
       (∀ z, Anc z pos → Anc ρ z → z ≠ ρ → ∃ l f, A (sib z) = some l ∧ (sib z, l.hash, f) ∈ N'') →
       (∀ q, ¬ (Anc q pos ∧ q ≠ pos ∧ Anc ρ q) → updLoopA n T k pos node A q = A q) ∧
       (∀ z, Anc z pos → z ≠ pos → Anc ρ z →
         (updLoopA n T k pos node A z).isSome = (A z).isSome ∧
-        ∀ l, updLoopA n T k pos node A z = some l → (z, l.hash, false) ∈ N'' ∧ l.remember = false)
+        ∀ l, updLoopA n T k pos node A z = some l → (z, l.hash, false) ∈ N'' ∧ l.remember = fl)
   | 0, pos, node, A, ρ, hρ, hanc, hne, hk, hnode, hrem, hsibs => by
     exfalso
     have h1 := hanc.1
@@ -186,7 +186,7 @@ theorem updLoop_below (L : Laws N'' R) (n T : Nat) (hR : ∀ z, R z ↔ isRootPo
       intro e; have := congrArg Prod.fst e; simp [parent] at this
     -- the new node
     have hnode' : ((if pos.2 % 2 = 0 then (⟨ph node.hash ((A (sib pos)).getD ⟨zero, false⟩).hash, node.remember⟩ : Leaf H)
-        else ⟨ph ((A (sib pos)).getD ⟨zero, false⟩).hash node.hash, node.remember⟩)) = ⟨hp, false⟩ := by
+        else ⟨ph ((A (sib pos)).getD ⟨zero, false⟩).hash node.hash, node.remember⟩)) = ⟨hp, fl⟩ := by
       rw [hAs]
       simp only [Option.getD_some]
       by_cases he : pos.2 % 2 = 0
@@ -207,9 +207,9 @@ theorem updLoop_below (L : Laws N'' R) (n T : Nat) (hR : ∀ z, R z ↔ isRootPo
     unfold updLoopA
     simp only
     rw [hnode', if_pos hlt]
-    generalize hA' : (if (A (parent pos)).isSome = true then upd A (parent pos) (some ⟨hp, false⟩) else A) = A'
+    generalize hA' : (if (A (parent pos)).isSome = true then upd A (parent pos) (some ⟨hp, fl⟩) else A) = A'
     have hA'p : (A' (parent pos)).isSome = (A (parent pos)).isSome ∧
-        ∀ l, A' (parent pos) = some l → l = ⟨hp, false⟩ := by
+        ∀ l, A' (parent pos) = some l → l = ⟨hp, fl⟩ := by
       rw [← hA']
       by_cases hs : (A (parent pos)).isSome = true
       · rw [if_pos hs, upd_self]
@@ -264,7 +264,7 @@ theorem updLoop_below (L : Laws N'' R) (n T : Nat) (hR : ∀ z, R z ↔ isRootPo
             omega
         rw [hA'o _ hne2]
         exact hsibs z (Anc.trans hz hppos) hρz hzρ
-      obtain ⟨ih1, ih2⟩ := updLoop_below L n T hR hRT k (parent pos) ⟨hp, false⟩ A' ρ hρ hρp hpne'
+      obtain ⟨ih1, ih2⟩ := updLoop_below L n T hR hRT k (parent pos) ⟨hp, fl⟩ A' ρ hρ hρp hpne'
         (by show k + (pos.1 + 1) = T + 1; omega) ⟨false, hparm⟩ rfl hsibs'
       constructor
       · intro q hq
